@@ -102,6 +102,17 @@ def explore(pid, cases, rep, nontrivial, extra_checks=(), keep=None, use_corpus=
                 for nm, b in zip(names, flags):
                     if not b:
                         stats["side_fail_" + nm] += 1
+                # four of these are THEOREMS of acceptance (C05_model_names_sep, C05_model_single_attach) or of acceptance
+                # plus typed links (C02_transit_is_a_theorem, first_hop_holds): the extracted binary evaluating one of
+                # them to false would contradict a theorem, i.e. the extraction / driver / build is broken
+                fl = dict(zip(names, flags))
+                implied = ["names_sep_req", "names_sep_rsp", "names_sep_wide", "single_attach"] + \
+                          (["transit_id_or_first_hops_src"] if fl.get("links_typed") else [])
+                bad = [nm for nm in implied if nm in fl and not fl[nm]]
+                if bad:
+                    stats["side_theorem_contradicted"] += 1
+                    rep.corr_broken(f"the model binary evaluates {bad} to false on an accepted description although they are "
+                                    f"theorems: {cases[i][1]}", {"desc": cases[i][0], "tags": cases[i][1]})
             else:
                 stats["side_not_evaluated"] += 1
     # C09: the hypotheses of the universal tree theorems (C09_model_tree_nx, C09_model_tree_src_nx), evaluated per
